@@ -601,6 +601,71 @@ func dominated(st map[string]interface{}, a acked) bool {
 	}
 }
 
+// directedContended is the shortest history of the known finding: a and b claim token 900000 (a wins, lower id),
+// a is rewritten without it; n1 merges a, b, a' and n0 merges a' before b. Every message is delivered, then
+// push/pull runs both ways.
+func directedContended(t *testing.T, run *vt.Run, c vt.CaseID) {
+	synctest.Test(t, func(t *testing.T) {
+		net, err := simnet.New(2, simnet.DefaultConfig(time.Hour))
+		if err != nil {
+			run.Inconclusive(err.Error())
+			return
+		}
+		defer net.Stop()
+		put := func(node int, id string, tokens ...uint32) {
+			cl := net.Client(node, ring.GetCodec())
+			if err := cl.CAS(context.Background(), simnet.RingKey, func(in interface{}) (interface{}, bool, error) {
+				d := ring.GetOrCreateRingDesc(in)
+				now := time.Now().Unix()
+				d.Ingesters[id] = ring.InstanceDesc{Id: id, Addr: id, Zone: "z", State: ring.ACTIVE, Timestamp: now, RegisteredTimestamp: now, Tokens: tokens}
+				return d, false, nil
+			}); err != nil {
+				run.Inconclusive("directed CAS failed: " + err.Error())
+			}
+			synctest.Wait()
+			time.Sleep(2 * time.Second)
+		}
+		put(0, "a", 1, 900000)
+		msgA := net.Collect(0)
+		put(1, "b", 2, 900000)
+		msgB := net.Collect(1)
+		for _, m := range msgA { // n1: a then b -> b loses 900000 in n1's stored state
+			net.Deliver(1, m)
+		}
+		synctest.Wait()
+		put(0, "a", 1) // a' gives the token up
+		msgA2 := net.Collect(0)
+		for _, m := range msgB { // n0 holds a' only: b keeps 900000
+			net.Deliver(0, m)
+		}
+		for _, m := range msgA2 {
+			net.Deliver(1, m)
+		}
+		synctest.Wait()
+		for r := 0; r < 6; r++ {
+			for i := 0; i < 2; i++ {
+				for _, m := range net.Collect(i) {
+					net.Deliver(1-i, m)
+				}
+			}
+			synctest.Wait()
+		}
+		net.PushPull(0, 1)
+		synctest.Wait()
+		net.PushPull(1, 0)
+		synctest.Wait()
+		v0, v1 := net.Visible(0, simnet.RingKey), net.Visible(1, simnet.RingKey)
+		run.EvalH(vt.Hash64("directed-contended"), true)
+		if v0 != v1 {
+			sig := "divergence-after-recovery"
+			if stripPool(v0) == stripPool(v1) {
+				sig = "divergence/contended-token-after-claimant-rewritten"
+			}
+			run.Violation(c, sig, "nodes n0 and n1 expose different values for \"ring\" after every message was delivered and push/pull ran both ways (directed history a{t}, b{t}, a'{})", map[string]any{"n0": v0, "n1": v1})
+		}
+	})
+}
+
 func TestC06(t *testing.T) {
 	run := vt.NewRun("C06", "fault_enumeration")
 	run.SetRule("case = one seeded adversarial schedule on 2-6 gossip KV nodes detached from the transport (verif hook), inside a synctest bubble: acknowledged CAS on the instance ring and the partition ring on any node, gossip rounds where the adversary decides per (message, destination) deliver / drop (p in {0,.3,.9}) / duplicate / delay and reorder / block by partition, push/pull exchanges, partitions and heals, node restarts, watcher registration, malformed messages (only ones the public codec rejects), virtual time advances; then a bounded recovery (all delayed messages, 2(N-1) push/pull exchanges along a chain, 12 lossless full-fan-out gossip rounds) and the judgement: all nodes expose the same value per key, every acknowledged CAS is dominated by every node's stored state, every watcher's last value is its node's final value, Invalidates(new, old) only when new contains old, malformed messages leave the stored state unchanged and do not crash. A second mode runs lossless full-fan-out gossip only (no push/pull) where divergence would reveal lost queue entries. non-trivial = more than one acknowledged CAS; distinct by journal; distinct fault-statistics vectors counted.")
@@ -621,7 +686,11 @@ func TestC06(t *testing.T) {
 	// contended token is reported as usual
 	run.ForEachT(t, "contended-rewrites", vt.N(120, 3000), func(t *testing.T, c vt.CaseID, rng *rand.Rand, s *vt.Slot) {
 		s.Enter(c, "crash/contended-rewrites")
-		runCluster(t, run, c, rng, c.Idx%2 == 0, true)
+		if c.Idx == 0 {
+			directedContended(t, run, c)
+		} else {
+			runCluster(t, run, c, rng, c.Idx%2 == 0, true)
+		}
 		s.Leave()
 	})
 	_ = sort.Strings
